@@ -274,7 +274,7 @@ def u_api(ctx, shard, nshards):
 
     grid = _api_grid(ctx.tier)
     grid = [g for i, g in enumerate(grid) if i % nshards == shard]
-    K = ctx.n(4, 5)
+    K = 4
     spec_cycle = ["plain", "rich", "scalar", "tuple"]
     n_eager = 0
     eager_budget = ctx.n(6, 20)
@@ -455,7 +455,8 @@ def u_axes(ctx, shard, nshards):
             axn = tuple(range(ndim)) if axes is None else ((axes,) if isinstance(axes, int) else axes)
             lead = int(np.prod([shape[a] for a in axn]))
             for sname in snames:
-                for B in sorted({1, max(1, lead // 2), max(1, lead - 1)} if (ndim == 2 and not ctx.quick) else {1, max(1, lead // 2)}):
+                for B in sorted({1, max(1, lead // 2), max(1, lead - 1)} if (ndim == 2 and not ctx.quick and sname == "mirror")
+                                else {1, max(1, lead // 2)}):
                     todo.append((shape, axes, sname, B))
     for ki, (shape, axes, sname, B) in enumerate(todo):
         if ki % nshards == shard:
@@ -690,7 +691,7 @@ def _tail_verdict(ctx, agg):
 def _tag_configs(ctx, shard, nshards):
     rng = np.random.default_rng([ctx.seed, 909])  # same list in every shard, then strided
     cfgs = []
-    n = ctx.n(12, 80) * nshards
+    n = ctx.n(12, 64) * nshards
     fixed = [(3, 7, 4, 3), (1, 8, 3, 2), (2, 5, 3, 4), (4, 4, 5, 2), (1, 1, 1, 2), (2, 1, 1, 3), (3, 5, 2, 1),
              (2, 6, 12, 2), (4, 16, 9, 3), (1, 13, 4, 5), (2, 12, 5, 3), (3, 9, 7, 1),
              # remainders of >= 2 samples and several epochs: "same samples dropped every epoch" is judgeable
